@@ -573,11 +573,11 @@ Section SimAbs.
     rewrite (Hsime d' F' _ _ Rc0 N Lf3). reflexivity.
   Qed.
 
-  Lemma abs_based_sim : forall F p0 pai base bt st k v st2, get_char d st = GChar 35 ->
-    abs_based d F p0 pai (inl (base, bt)) st = (Ok (k, v), st2) ->
-    exists l, run d (35 :: l) st st2 /\ Forall okch l /\
+  Lemma abs_based_sim_35 : forall F p0 pai base bt st k v st2, get_char d st = GChar 35 ->
+    abs_based d F 35 p0 pai (inl (base, bt)) st = (Ok (k, v), st2) ->
+    exists l, run d (35 :: l) st st2 /\ Forall okch l /\ l <> [] /\
       forall d' F' p0' pai' st' e', run d' (35 :: l) st' e' -> nxt d' st2 e' -> (length (35%N :: l) < F')%nat ->
-        abs_based d' F' p0' pai' (inl (base, bt)) st' = (Ok (k, v), e').
+        abs_based d' F' 35 p0' pai' (inl (base, bt)) st' = (Ok (k, v), e').
   Proof.
     intros F p0 pai base bt st k v st2 G H. unfold abs_based in H.
     unfold of_result at 1 in H. bok H x st1 OR. unfold ret in OR. injection OR as <- <-.
@@ -697,6 +697,8 @@ Section SimAbs.
     split.
     { apply Forall_app; split; [exact Foit|]. apply Forall_app; split; [exact Folf|].
       constructor; [split; [lia|discriminate]|exact Fole]. }
+    split.
+    { intro E. apply app_eq_nil in E. destruct E as [_ E]. apply app_eq_nil in E. destruct E as [_ E]. discriminate. }
     intros d' F' p0' pai' st' e' R' N Lf. apply run_cons_inv in R'. destruct R' as [G' R'].
     apply run_app_inv in R'. destruct R' as [m3 [Ra R']]. apply run_app_inv in R'. destruct R' as [m4 [Rb R']].
     cbn [app] in R'. apply run_cons_inv in R'. destruct R' as [G2' Rc].
@@ -716,6 +718,161 @@ Section SimAbs.
     apply Hfin.
   Qed.
 
+  Lemma abs_based_sim_58 : forall F p0 pai base bt st k v st2, get_char d st = GChar 58 ->
+    abs_based d F 58 p0 pai (inl (base, bt)) st = (Ok (k, v), st2) ->
+    exists l, run d (58 :: l) st st2 /\ Forall okch l /\ l <> [] /\
+      forall d' F' p0' pai' st' e', run d' (58 :: l) st' e' -> nxt d' st2 e' -> (length (58%N :: l) < F')%nat ->
+        abs_based d' F' 58 p0' pai' (inl (base, bt)) st' = (Ok (k, v), e').
+  Proof.
+    intros F p0 pai base bt st k v st2 G H. unfold abs_based in H.
+    unfold of_result at 1 in H. bok H x st1 OR. unfold ret in OR. injection OR as <- <-.
+    bok H u sa S. pose proof (skip_ok_at _ _ _ _ _ G S). subst sa.
+    bok H bres st3 T1.
+    bok H op st4 P1. pose proof (peek_ok_nomove _ _ _ _ P1). subst st4.
+    bok H fres st4 FR.
+    bok H op2 st5 P2. pose proof (peek_ok_nomove _ _ _ _ P2). subst st5.
+    destruct (opt_is op2 58) eqn:E2; [|bok H e st6 GP; discriminate].
+    destruct op2 as [c2|]; [|discriminate]. cbn [opt_is] in E2. apply N.eqb_eq in E2. subst c2.
+    destruct (peek_ok_get _ _ _ _ P2) as [_ [G2 L2]].
+    bok H u2 st5 S2. pose proof (skip_ok_at _ _ _ _ _ G2 S2). subst st5.
+    bok H y st6 OR2. destruct y as [iv it]. destruct (of_result_ok _ _ _ _ _ OR2) as [-> ->].
+    apply try_ok_inl in T1. destruct (parse_integer_sim_ok _ _ _ _ _ _ _ T1) as [Rit [Foit [_ Hsimi]]].
+    bok H ftxt st6 FT.
+    (* the fraction *)
+    assert (Hfr : exists lf, run d lf st3 st4 /\ Forall okch lf /\ st6 = skip_char st4 58 /\
+              (forall stx, (match fres with
+                            | Some r => '(_, ft) <- of_result r ;; ret (Some ft)
+                            | None => ret None
+                            end) stx = (Ok ftxt, stx)) /\
+              forall d' F' m3 m4, run d' lf m3 m4 -> get_char d' m4 = GChar 58 -> (length lf < F')%nat ->
+                exists op', peek d' m3 = (Ok op', m3) /\
+                  (if opt_is op' 46 then skip d' ;;; r <- try (parse_integer d' F' base false) ;; ret (Some r)
+                   else ret None) m3 = (Ok fres, m4)).
+    { destruct (opt_is op 46) eqn:E1.
+      - destruct op as [c1|]; [|discriminate]. cbn [opt_is] in E1. apply N.eqb_eq in E1. subst c1.
+        destruct (peek_ok_get _ _ _ _ P1) as [_ [G1 L1]].
+        bok FR u3 st7 S3. pose proof (skip_ok_at _ _ _ _ _ G1 S3). subst st7.
+        bok FR r st7 T2. unfold ret in FR. injection FR as <- <-.
+        bok FT z st8 OR3. destruct z as [fv ft]. destruct (of_result_ok _ _ _ _ _ OR3) as [-> ->].
+        unfold ret in FT. injection FT as <- <-.
+        apply try_ok_inl in T2. destruct (parse_integer_sim_ok _ _ _ _ _ _ _ T2) as [Rft [Foft [_ Hsimf]]].
+        exists (46 :: ft). split; [econstructor; eassumption|].
+        split; [constructor; [split; [lia|discriminate]|exact Foft]|]. split; [reflexivity|].
+        split; [intro stx; reflexivity|].
+        intros d' F' m3 m4 R' G35 Lf. apply run_cons_inv in R'. destruct R' as [G1' R'].
+        exists (Some 46). split; [apply peek_at'; [exact G1'|lia]|].
+        cbn [opt_is]. rewrite N.eqb_refl. unfold bind at 1. rewrite (skip_at _ _ _ G1').
+        unfold bind at 1. unfold try. cbn [length] in Lf.
+        rewrite (Hsimf d' F' _ _ R') by (try llia; right; congruence). reflexivity.
+      - unfold ret in FR. injection FR as <- <-. unfold ret in FT. injection FT as <- <-.
+        exists []. split; [constructor|]. split; [constructor|]. split; [reflexivity|].
+        split; [intro stx; reflexivity|].
+        intros d' F' m3 m4 R' G35 Lf. apply run_nil_inv in R'. subst m4.
+        exists (Some 58). split; [apply peek_at'; [exact G35|lia]|]. reflexivity. }
+    destruct Hfr as [lf [Rlf [Folf [-> [Hft Hsimfr]]]]].
+    cbv zeta in H.
+    destruct (negb (in_range 2 16 base)) eqn:Erange; [discriminate|].
+    bok H op3 st7 P3. pose proof (peek_ok_nomove _ _ _ _ P3). subst st7.
+    bok H oexp st7 OE.
+    (* the exponent *)
+    assert (Hex : exists le, run d le (skip_char st4 58) st7 /\ Forall okch le /\
+              forall d' F' m6 e', run d' le m6 e' -> nxt d' st7 e' -> (length le < F')%nat ->
+                exists op3', peek d' m6 = (Ok op3', m6) /\
+                  (match op3' with
+                   | Some c => if is_e c then skip d' ;;; x <- parse_exponent d' F' ;; ret (Some (c, x)) else ret None
+                   | None => ret None
+                   end) m6 = (Ok oexp, e')).
+    { assert (Hnone : match op3 with Some c => is_e c = false | None => True end ->
+                ret None (skip_char st4 58) = (Ok oexp, st7) ->
+                exists le, run d le (skip_char st4 58) st7 /\ Forall okch le /\
+                  forall d' F' m6 e', run d' le m6 e' -> nxt d' st7 e' -> (length le < F')%nat ->
+                    exists op3', peek d' m6 = (Ok op3', m6) /\
+                      (match op3' with
+                       | Some c => if is_e c then skip d' ;;; x <- parse_exponent d' F' ;; ret (Some (c, x)) else ret None
+                       | None => ret None
+                       end) m6 = (Ok oexp, e')).
+      { intros Hop E. unfold ret in E. injection E as <- <-. exists []. split; [constructor|]. split; [constructor|].
+        intros d' F' m6 e' R' N Lf. apply run_nil_inv in R'. subst e'.
+        destruct (peek_nxt d _ _ _ _ _ P3 N) as [E|E]; eexists; (split; [exact E|]); [reflexivity|].
+        destruct op3 as [c|]; [rewrite Hop|]; reflexivity. }
+      destruct op3 as [c3|]; [|apply Hnone; [exact I|exact OE]].
+      destruct (is_e c3) eqn:Ee; [|apply Hnone; [reflexivity|exact OE]].
+      destruct (peek_ok_get _ _ _ _ P3) as [_ [G3 L3]].
+      bok OE u4 st8 S4. pose proof (skip_ok_at _ _ _ _ _ G3 S4). subst st8.
+      bok OE x st8 PE. destruct x as [[neg ev] et]. unfold ret in OE. injection OE as <- <-.
+      destruct (parse_exponent_sim _ _ _ _ _ _ PE) as [Re [Foe Hsime]].
+      exists (c3 :: et). split; [econstructor; eassumption|].
+      split; [constructor; [split; [exact L3|intro E; subst c3; discriminate]|exact Foe]|].
+      intros d' F' m6 e' R' N Lf. apply run_cons_inv in R'. destruct R' as [G3' R'].
+      exists (Some c3). split; [apply peek_at'; assumption|]. rewrite Ee.
+      unfold bind at 1. rewrite (skip_at _ _ _ G3'). unfold bind at 1. cbn [length] in Lf.
+      rewrite (Hsime d' F' _ _ R' N) by llia. reflexivity. }
+    destruct Hex as [le [Rle [Fole Hsimex]]].
+    set (txt0 := bt ++ [58] ++ it ++ match ftxt with Some ft => [46] ++ ft | None => [] end ++ [58]) in *.
+    set (txt1 := match oexp with Some (c, (_, _, et)) => txt0 ++ [c] ++ et | None => txt0 end) in *.
+    (* the pure end of the arm *)
+    assert (Hfin : st2 = st7 /\ forall (p0' : position) (stx : rstate),
+              (match ftxt with
+               | Some _ => ret (lit_real txt1)
+               | None =>
+                 match oexp with
+                 | Some (_, (neg, ev, _)) =>
+                   e <- get_pos ;;
+                   if exp_is_neg neg ev then throw (TErr p0' e 10)
+                   else if ev <=? 64 then
+                     (if (base ^ ev <? TWO64) && (base ^ ev * iv <? TWO64)
+                      then ret (lit_int txt1 (base ^ ev * iv))
+                      else throw (TErr p0' e 4))
+                   else throw (TErr p0' e 4)
+                 | None => ret (lit_int txt1 iv)
+                 end
+               end) stx = (Ok (k, v), stx)).
+    { destruct ftxt as [ft|].
+      - unfold ret in H. injection H as <- <- <-. split; [reflexivity|]. intros p0' stx. reflexivity.
+      - destruct oexp as [[c [[neg ev] et]]|].
+        + bok H e st8 GP. pose proof (get_pos_ok _ _ _ GP). subst st8.
+          destruct (exp_is_neg neg ev); [discriminate|]. destruct (ev <=? 64); [|discriminate].
+          destruct ((base ^ ev <? TWO64) && (base ^ ev * iv <? TWO64)); [|discriminate].
+          unfold ret in H. injection H as <- <- <-. split; [reflexivity|]. intros p0' stx. reflexivity.
+        + unfold ret in H. injection H as <- <- <-. split; [reflexivity|]. intros p0' stx. reflexivity. }
+    destruct Hfin as [-> Hfin].
+    exists (it ++ lf ++ [58] ++ le). split.
+    { econstructor; [exact G|]. eapply run_app; [exact Rit|]. eapply run_app; [exact Rlf|].
+      econstructor; [exact G2|exact Rle]. }
+    split.
+    { apply Forall_app; split; [exact Foit|]. apply Forall_app; split; [exact Folf|].
+      constructor; [split; [lia|discriminate]|exact Fole]. }
+    split.
+    { intro E. apply app_eq_nil in E. destruct E as [_ E]. apply app_eq_nil in E. destruct E as [_ E]. discriminate. }
+    intros d' F' p0' pai' st' e' R' N Lf. apply run_cons_inv in R'. destruct R' as [G' R'].
+    apply run_app_inv in R'. destruct R' as [m3 [Ra R']]. apply run_app_inv in R'. destruct R' as [m4 [Rb R']].
+    cbn [app] in R'. apply run_cons_inv in R'. destruct R' as [G2' Rc].
+    cbn [length] in Lf. rewrite !app_length in Lf. cbn [length] in Lf.
+    assert (N3 : nxt d' st3 m3).
+    { eapply nxt_back; [exact Rlf|exact Rb|]. right. congruence. }
+    destruct (Hsimfr d' F' m3 m4 Rb G2') as [op' [P1' FR']]; [llia|].
+    destruct (Hsimex d' F' _ e' Rc N) as [op3' [P3' OE']]; [llia|].
+    unfold abs_based. unfold of_result at 1. unfold bind at 1. unfold ret at 1.
+    unfold bind at 1. rewrite (skip_at _ _ _ G'). unfold bind at 1. unfold try at 1.
+    rewrite (Hsimi d' F' _ _ Ra N3) by llia.
+    unfold bind at 1. rewrite P1'. unfold bind at 1. rewrite FR'.
+    unfold bind at 1. rewrite (peek_at' _ _ _ G2' L2). cbn [opt_is]. rewrite N.eqb_refl.
+    unfold bind at 1. rewrite (skip_at _ _ _ G2'). unfold bind at 1. unfold of_result at 1. unfold ret at 1.
+    unfold bind at 1. rewrite Hft. cbv zeta. rewrite Erange.
+    unfold bind at 1. rewrite P3'. unfold bind at 1. rewrite OE'.
+    apply Hfin.
+  Qed.
+
+  Lemma abs_based_sim : forall dl F p0 pai base bt st k v st2, dl = 35 \/ dl = 58 -> get_char d st = GChar dl ->
+    abs_based d F dl p0 pai (inl (base, bt)) st = (Ok (k, v), st2) ->
+    exists l, run d (dl :: l) st st2 /\ Forall okch l /\ l <> [] /\
+      forall d' F' p0' pai' st' e', run d' (dl :: l) st' e' -> nxt d' st2 e' -> (length (dl :: l) < F')%nat ->
+        abs_based d' F' dl p0' pai' (inl (base, bt)) st' = (Ok (k, v), e').
+  Proof.
+    intros dl F p0 pai base bt st k v st2 [->| ->] G H;
+      [exact (abs_based_sim_35 _ _ _ _ _ _ _ _ _ G H)|exact (abs_based_sim_58 _ _ _ _ _ _ _ _ _ G H)].
+  Qed.
+
   (* the error of the integer scan is kept but its positions are never looked at *)
   Definition isame (a b : (N * list N) + terr) : Prop :=
     match a, b with
@@ -732,7 +889,10 @@ Section SimAbs.
     | Some c =>
       if c =? 46 then abs_real D F st0 pai initial
       else if c =? 101 then abs_int_exp D F (r_pos st0) initial
-      else if c =? 35 then abs_based D F (r_pos st0) pai initial
+      else if c =? 35 then abs_based D F 35 (r_pos st0) pai initial
+      else if c =? 58 then
+        (b <- colon_starts_based_literal D ;;
+         if b then abs_based D F 58 (r_pos st0) pai initial else abs_plain initial)
       else if is_bs_letter c then abs_bit_string D F (r_pos st0) initial
       else abs_plain initial
     end.
@@ -740,7 +900,7 @@ Section SimAbs.
   Lemma parse_abstract_literal_sim : forall F st k v st2, Forall lf_last d -> RInv d st ->
     parse_abstract_literal d F st = (Ok (k, v), st2) ->
     exists l, run d l st st2 /\ Forall okch l /\
-      forall d' F' st' e', Forall lf_last d' -> RInv d' st' -> run d' l st' e' -> nxt d' st2 e' ->
+      forall d' F' st' e', Forall lf_last d' -> RInv d' st' -> run d' l st' e' -> get_char d' e' = GEof ->
         (length l < F')%nat -> parse_abstract_literal d' F' st' = (Ok (k, v), e').
   Proof.
     intros F st k v st2 HD HI H. unfold parse_abstract_literal in H.
@@ -767,26 +927,20 @@ Section SimAbs.
       - exists (inr e'). split; [exact I|]. reflexivity. }
     assert (Hinl : forall iv it, initial = inl (iv, it) -> it = li /\ Forall (fun b => intch 10 b = true) li).
     { intros iv it E. subst initial. apply (Hok iv it). exact Hr. }
-    assert (Hplain : forall ox, peek_lowercase d st1 = (Ok ox, st1) ->
-              match ox with
-              | Some c => (c =? 46) = false /\ (c =? 101) = false /\ (c =? 35) = false /\ is_bs_letter c = false
-              | None => True
-              end ->
-              abs_plain initial st1 = (Ok (k, v), st2) ->
+    assert (Hplain : abs_plain initial st1 = (Ok (k, v), st2) ->
               exists l, run d l st st2 /\ Forall okch l /\
-                forall d' F' st' e', Forall lf_last d' -> RInv d' st' -> run d' l st' e' -> nxt d' st2 e' ->
+                forall d' F' st' e', Forall lf_last d' -> RInv d' st' -> run d' l st' e' -> get_char d' e' = GEof ->
                   (length l < F')%nat -> parse_abstract_literal d' F' st' = (Ok (k, v), e')).
-    { intros ox PL Hox E. unfold abs_plain in E. destruct initial as [[iv it]|e]; [|discriminate].
+    { intros E. unfold abs_plain in E. destruct initial as [[iv it]|e]; [|discriminate].
       unfold of_result, bind, ret in E. injection E as <- <- <-.
       exists li. split; [exact Rli|]. split; [exact Foli|].
-      intros d' F' st' e' HD' HI' R' N Lf. destruct (Hpre d' F' st' e' R' N Lf) as [initial' [IS E']].
+      intros d' F' st' e' HD' HI' R' Ee Lf.
+      destruct (Hpre d' F' st' e' R' (or_introl Ee) Lf) as [initial' [IS E']].
       rewrite E'. destruct initial' as [y|e]; cbn [isame] in IS; [|contradiction]. subst y.
-      unfold pal_cont. unfold bind at 1.
-      destruct (peek_lowercase_nxt d _ _ _ _ _ PL N) as [E|E]; rewrite E; [reflexivity|].
-      destruct ox as [c|]; [|reflexivity]. destruct Hox as [H1 [H2 [H3 H4]]]. rewrite H1, H2, H3, H4. reflexivity. }
+      unfold pal_cont, peek_lowercase. unfold bind at 1. unfold bind at 1. rewrite (peek_eof _ _ Ee). reflexivity. }
     unfold pal_cont in H. bok H onx sx PL.
     assert (sx = st1) by (eapply peek_lowercase_nomove; exact PL). subst sx.
-    destruct onx as [c|]; [|eapply Hplain; [exact PL|exact I|exact H]].
+    destruct onx as [c|]; [|apply Hplain; exact H].
     pose proof PL as PL0. unfold peek_lowercase in PL0. bok PL0 ob sx P. pose proof (peek_ok_nomove _ _ _ _ P). subst sx. unfold ret in PL0. injection PL0 as E0.
     destruct ob as [c0|]; cbn [option_map] in E0; [|discriminate]. injection E0 as <-.
     destruct (peek_ok_get _ _ _ _ P) as [_ [G0 L0]].
@@ -797,7 +951,10 @@ Section SimAbs.
                 parse_abstract_literal d' F' st' =
                 (if lowercase c0 =? 46 then abs_real d' F' st' (r_pos m1') initial'
                  else if lowercase c0 =? 101 then abs_int_exp d' F' (r_pos st') initial'
-                 else if lowercase c0 =? 35 then abs_based d' F' (r_pos st') (r_pos m1') initial'
+                 else if lowercase c0 =? 35 then abs_based d' F' 35 (r_pos st') (r_pos m1') initial'
+                 else if lowercase c0 =? 58 then
+                   (b <- colon_starts_based_literal d' ;;
+                    if b then abs_based d' F' 58 (r_pos st') (r_pos m1') initial' else abs_plain initial')
                  else if is_bs_letter (lowercase c0) then abs_bit_string d' F' (r_pos st') initial'
                  else abs_plain initial') m1').
     { intros d' F' st' m1' e' l2 Ra Rb Lf. pose proof Rb as Rb0. apply run_cons_inv in Rb0. destruct Rb0 as [G0' _].
@@ -810,7 +967,8 @@ Section SimAbs.
       destruct (abs_real_sim _ _ _ _ _ _ _ _ _ Rli Foli G0 (fun iv it E => proj2 (Hinl iv it E)) H) as [r1 [R1 [For1 Hsim]]].
       exists (li ++ 46 :: r1). split; [eapply run_app; eassumption|].
       split; [apply Forall_app; split; [exact Foli|constructor; [split; [lia|discriminate]|exact For1]]|].
-      intros d' F' st' e' HD' HI' R' N Lf. apply run_app_inv in R'. destruct R' as [m1' [Ra Rb]].
+      intros d' F' st' e' HD' HI' R' Ee Lf. pose proof (or_introl Ee : nxt d' st2 e') as N.
+      apply run_app_inv in R'. destruct R' as [m1' [Ra Rb]].
       assert (Lf1 : (length li < F')%nat) by (rewrite app_length in Lf; llia).
       destruct (Hdisp d' F' st' m1' e' r1 Ra Rb Lf1) as [initial' [_ E']]. rewrite E'.
       cbv iota. apply Hsim; assumption.
@@ -822,7 +980,8 @@ Section SimAbs.
         destruct (abs_int_exp_sim _ _ _ _ _ _ _ _ Hlf H) as [c' [l2 [R2 [Fo2 Hsim]]]].
         assert (c' = c0) by (apply run_cons_inv in R2; destruct R2 as [G2 _]; congruence). subst c'.
         exists (li ++ c0 :: l2). split; [eapply run_app; eassumption|]. split; [apply Forall_app; auto|].
-        intros d' F' st' e' HD' HI' R' N Lf. apply run_app_inv in R'. destruct R' as [m1' [Ra Rb]].
+        intros d' F' st' e' HD' HI' R' Ee Lf. pose proof (or_introl Ee : nxt d' st2 e') as N.
+      apply run_app_inv in R'. destruct R' as [m1' [Ra Rb]].
         rewrite app_length in Lf.
         destruct (Hdisp d' F' st' m1' e' l2 Ra Rb) as [initial' [IS E']]; [llia|]. rewrite E'.
         destruct initial' as [y|e]; cbn [isame] in IS; [|contradiction]. subst y.
@@ -831,27 +990,61 @@ Section SimAbs.
         * (* based literal *)
           apply N.eqb_eq in E35. apply lowercase_35 in E35. subst c0.
           destruct initial as [[iv it]|e]; [|unfold abs_based, of_result, bind, throw in H; discriminate].
-          destruct (abs_based_sim _ _ _ _ _ _ _ _ _ G0 H) as [l2 [R2 [Fo2 Hsim]]].
+          destruct (abs_based_sim 35 _ _ _ _ _ _ _ _ _ (or_introl eq_refl) G0 H) as [l2 [R2 [Fo2 [_ Hsim]]]].
           exists (li ++ 35 :: l2). split; [eapply run_app; eassumption|].
           split; [apply Forall_app; split; [exact Foli|constructor; [split; [lia|discriminate]|exact Fo2]]|].
-          intros d' F' st' e' HD' HI' R' N Lf. apply run_app_inv in R'. destruct R' as [m1' [Ra Rb]].
+          intros d' F' st' e' HD' HI' R' Ee Lf. pose proof (or_introl Ee : nxt d' st2 e') as N.
+      apply run_app_inv in R'. destruct R' as [m1' [Ra Rb]].
           rewrite app_length in Lf.
           destruct (Hdisp d' F' st' m1' e' l2 Ra Rb) as [initial' [IS E']]; [llia|]. rewrite E'.
           destruct initial' as [y|e]; cbn [isame] in IS; [|contradiction]. subst y.
           cbv iota. apply Hsim; [exact Rb|exact N|llia].
-        * destruct (is_bs_letter (lowercase c0)) eqn:Ebs.
+        * destruct (lowercase c0 =? 58) eqn:E58.
+          { (* ':' : based literal with replacement characters, or a plain integer followed by a colon *)
+            apply N.eqb_eq in E58. apply lowercase_58 in E58. subst c0.
+            bok H b sx CS.
+            assert (Hcs : sx = st1 /\ (b = true -> exists n, get_char d (skip_char st1 58) = GChar n /\ n < 256 /\ is_alnum n = true)).
+            { unfold colon_starts_based_literal in CS. unfold colon_lookahead in CS. unfold bind at 1 in CS.
+              rewrite (skip_at _ _ _ G0) in CS. unfold try in CS.
+              destruct (peek d (skip_char st1 58)) as [[[n|]|e|a] sy] eqn:Pn; try discriminate; injection CS as <- <-; (split; [reflexivity|]);
+                try (intro E; discriminate).
+              intro E. destruct (peek_ok_get _ _ _ _ Pn) as [_ [Gn Ln]]. exists n. auto. }
+            destruct Hcs as [-> Hn]. destruct b; [|apply Hplain; exact H].
+            destruct (Hn eq_refl) as [n [Gn [Ln An]]].
+            destruct initial as [[iv it]|e]; [|unfold abs_based, of_result, bind, throw in H; discriminate].
+            destruct (abs_based_sim 58 _ _ _ _ _ _ _ _ _ (or_intror eq_refl) G0 H) as [l2 [R2 [Fo2 [Hne2 Hsim]]]].
+            destruct l2 as [|n' l2']; [congruence|].
+            assert (n' = n).
+            { pose proof R2 as R0. apply run_cons_inv in R0. destruct R0 as [_ R0]. apply run_cons_inv in R0.
+              destruct R0 as [Gn' _]. congruence. }
+            subst n'.
+            exists (li ++ 58 :: n :: l2'). split; [eapply run_app; eassumption|].
+            split; [apply Forall_app; split; [exact Foli|constructor; [split; [lia|discriminate]|exact Fo2]]|].
+            intros d' F' st' e' HD' HI' R' Ee Lf. pose proof (or_introl Ee : nxt d' st2 e') as N.
+            apply run_app_inv in R'. destruct R' as [m1' [Ra Rb]].
+            rewrite app_length in Lf.
+            destruct (Hdisp d' F' st' m1' e' (n :: l2') Ra Rb) as [initial' [IS E']]; [llia|]. rewrite E'.
+            destruct initial' as [y|e]; cbn [isame] in IS; [|contradiction]. subst y.
+            cbv iota.
+            pose proof Rb as Rb0. apply run_cons_inv in Rb0. destruct Rb0 as [G0' Rb0].
+            apply run_cons_inv in Rb0. destruct Rb0 as [Gn' _].
+            unfold bind at 1. unfold colon_starts_based_literal, colon_lookahead. unfold bind at 1.
+            rewrite (skip_at _ _ _ G0'). unfold try. rewrite (peek_at' _ _ _ Gn' Ln). rewrite An.
+            apply Hsim; [exact Rb|exact N|llia]. }
+          destruct (is_bs_letter (lowercase c0)) eqn:Ebs.
           -- (* bit string with a length *)
              destruct initial as [[iv it]|e]; [|unfold abs_bit_string, of_result, bind, throw in H; discriminate].
              destruct (abs_bit_string_sim _ _ _ _ _ _ _ _ _ HD HI Rli Foli H) as [l2 [R2 [Hne [Fo2 Hsim]]]].
              exists (li ++ l2). split; [eapply run_app; eassumption|]. split; [apply Forall_app; auto|].
-             intros d' F' st' e' HD' HI' R' N Lf. apply run_app_inv in R'. destruct R' as [m1' [Ra Rb]].
+             intros d' F' st' e' HD' HI' R' Ee Lf. pose proof (or_introl Ee : nxt d' st2 e') as N.
+      apply run_app_inv in R'. destruct R' as [m1' [Ra Rb]].
              rewrite app_length in Lf.
              destruct l2 as [|c' l2']; [congruence|].
              assert (c' = c0) by (apply run_cons_inv in R2; destruct R2 as [G2 _]; congruence). subst c'.
              destruct (Hdisp d' F' st' m1' e' l2' Ra Rb) as [initial' [IS E']]; [llia|]. rewrite E'.
              destruct initial' as [y|e]; cbn [isame] in IS; [|contradiction]. subst y.
              cbv iota. apply (Hsim d' F' st' m1' e' HD' HI' Ra Rb N). llia.
-          -- eapply Hplain; [exact PL| |exact H]. cbv beta iota. auto.
+          -- apply Hplain; exact H.
   Qed.
 End SimAbs.
 
